@@ -265,7 +265,11 @@ func runC15(w *World) {
 		writeCfg(target)
 		target.start()
 		if mode == 5 {
-			clientAddr = "10.9.8.7:50001"
+			// non-loopback peers of several address families and spellings
+			clientAddr = simAddr([]string{"10.9.8.7:50001", "[2001:db8::7]:50001", "[fe80::1c2:3ff:fe04:5%eth0]:50001",
+				"[::ffff:10.9.8.7]:50001", "192.168.1.20:50001", "[fe80::1%2]:50001", "128.0.0.1:50001", "[::2]:50001"}[(w.seed/8)%8])
+		} else if (w.seed/8)%2 == 1 {
+			clientAddr = "[::1]:50001" // the other loopback
 		}
 	}
 	inst := target.inst
